@@ -6,7 +6,7 @@
    of known type and class with their typed data. *)
 From RsdnsModel Require Import Base GenReader Cursor Names Labels Header Tracker RData Reader Script Iter.
 From RsdnsModel.Spec Require Import WireName LinearPass.
-From RsdnsModel.Proofs Require Import CursorSafe LabelsSound Views RandAccess Flavours IterAgree NameRefEq ReaderRefine QuestionsIter.
+From RsdnsModel.Proofs Require Import CursorSafe LabelsSound Views RandAccess Flavours IterAgree NameRefEq ReaderRefine QuestionsIter MessageRT EndToEnd.
 Open Scope N_scope.
 
 (* owned names of the two types: identical values, errors (with payloads) and resume positions,
@@ -127,3 +127,24 @@ Theorem C08_records_iterator_general : forall msg nq an ns ar qs rs e1 e2, parse
   exists stop, iter_records msg h e1 = Ok (fst (iter_walk msg nq an ns ar 0 rs), stop) /\
                (snd (iter_walk msg nq an ns ar 0 rs) = true <-> stop = None).
 Proof. exact iter_records_walk_any. Qed.
+
+(* ---- end to end, on the semantic description of a message (Proofs/MessageRT.v) ----
+   Questions and records standing back to back behind a header that announces them (names in any
+   legal compression; data: values of the 17 typed formats, or raw octets).  [iter_wants x]: type and
+   class of x are known to the crate; such records are described by their values ([typed]).
+   records() drained yields exactly [sem_iter 0 rs]: the records of known type and class in wire
+   order, each with its section by counting, the text of its owner's labels, CLASS, TYPE, TTL and its
+   value — the others are passed over — and then ends without an error. *)
+Theorem C08_iterator_end_to_end : forall msg qs rs nq an ns ar e1 e2 h,
+  lenN msg <= 65535 -> 12 <= lenN msg -> questions_stand msg 12 qs e1 -> records_stand msg e1 rs e2 ->
+  lenN qs = nq -> lenN rs = an + ns + ar -> nq <= 65535 -> an <= 65535 -> ns <= 65535 -> ar <= 65535 ->
+  h_qd h = nq /\ h_an h = an /\ h_ns h = ns /\ h_ar h = ar ->
+  Forall (fun x => iter_wants x = true -> typed x) rs ->
+  iter_records msg h e1 = Ok (sem_iter nq an ns ar 0 rs, None).
+Proof. exact iterator_end_to_end. Qed.
+
+(* e.g. the response "a. CNAME b." + "b. A 5.6.7.8" of Properties/C06.v, through the iterator *)
+Example C08_iterator_example :
+  iter_records example_chain_msg (mkHeader 4660 33152 1 2 0 0) 19 =
+  Ok ([mkRR 0 [x61; x2e] 1 5 60 (RD_Name 5 [x62; x2e]); mkRR 0 [x62; x2e] 1 1 30 (RD_A 84281096)], None).
+Proof. exact example_iterator. Qed.
